@@ -6,7 +6,7 @@ from .flow import Engine
 from .engines_mpscb import Mon, parse_ids, FIX_CLONE
 
 # model switch: bit1 = F-M1 repaired (clone of a closed sender is closed).  0 = the code as it is.
-FIXFLAGS = int(os.environ.get("VERIF_MPSC_FIXFLAGS", "0")) & 2
+FIXFLAGS = int(os.environ.get("VERIF_MPSC_FIXFLAGS", "3")) & 2
 
 ARITY = {"ts": 3, "sd": 3, "tr": 2, "rc": 2, "rt": 2, "cl": 2, "dr": 2, "cn": 3, "tos": 2, "toa": 2,
          "ln": 2, "ie": 2, "ic": 2, "sc": 2, "ms": 4, "mr": 3, "pl": 3, "df": 2, "pn": 3,
